@@ -111,6 +111,8 @@ type c06Sample struct {
 	Len     int      `json:"message_len"`
 	Trail   int      `json:"trailing_bytes"`
 	OrSet   bool     `json:"ored_with_a_deciding_set,omitempty"`
+	AndNot  bool     `json:"behind_a_not_in_the_same_set,omitempty"`
+	History int      `json:"bytes_of_an_earlier_client_of_the_same_protocol,omitempty"`
 	Hex     string   `json:"first_bytes"`
 	Deliveries []string `json:"deliveries"`
 	Outcomes []string `json:"outcomes"`
@@ -137,6 +139,8 @@ func runC06(t *testing.T, e *worlds.Env, tier string) (bool, any) {
 	}
 	var dels []*delivery
 	driverDone := false
+	var refBeforeOK, refBeforeSet bool
+	var histMsg []byte
 	udp := false
 	e.Run(t, func() func() bool {
 		tp := e.T
@@ -192,7 +196,14 @@ func runC06(t *testing.T, e *worlds.Env, tier string) (bool, any) {
 		})
 		never := &worlds.SpecMatcher{E: e, ID: "never", Never: true}
 		sets := []layer4.MatcherSet{{pm}}
-		if tp.Prob(1, 4, "or-set") {
+		if tp.Prob(1, 4, "and-not") {
+			// the matcher under test runs in a set behind a `not` (whose inner sets are evaluated
+			// through the same set machinery on the same connection): it must still be evaluated in
+			// matching mode - on the recorded bytes only
+			no := &worlds.SpecMatcher{E: e, ID: "notinner", Fn: func(v []byte) int { return 0 }} // says no without a byte
+			sets = []layer4.MatcherSet{{&layer4.MatchNot{MatcherSets: []layer4.MatcherSet{{no}}}, pm}}
+			sample.AndNot = true
+		} else if tp.Prob(1, 4, "or-set") {
 			// the route ORs a second matcher set that can already say no: while the matcher under
 			// test still asks for more data the route as a whole must keep asking too
 			sets = append(sets, layer4.MatcherSet{&worlds.SpecMatcher{E: e, ID: "orno", Fn: func(v []byte) int {
@@ -233,6 +244,10 @@ func runC06(t *testing.T, e *worlds.Env, tier string) (bool, any) {
 			}
 			s := end.Snapshot()
 			return s.ReadCalls
+		}
+		if !udp && tp.Prob(1, 3, "history") {
+			histMsg = p.Valid(tp, true)
+			sample.History = len(histMsg)
 		}
 		ndel := 2 + tp.Choose(3, "n-deliveries")
 		type plan struct {
@@ -283,6 +298,35 @@ func runC06(t *testing.T, e *worlds.Env, tier string) (bool, any) {
 				driverDone = true
 				ulk()
 			}()
+			// the verdict on the complete input before this process has seen any other input
+			// (compared at the end with the verdict after everything else: it must not depend on
+			// what other connections sent earlier)
+			ca := worlds.ClientAddr(1)
+			gen.FakeRemoteIP, gen.FakeRemotePort, gen.FakeLocalIP, gen.FakeLocalPort = ca.IP, ca.Port, net.ParseIP("10.0.0.1"), 443
+			if ok, err := gen.MatchWhole(pm.Inner, msg, true); err == nil {
+				refBeforeOK, refBeforeSet = ok, true
+			}
+			if histMsg != nil {
+				// history: another client of the same protocol goes first
+				addr := worlds.ClientAddr(90)
+				e.Reg.Add(&worlds.ConnModel{ID: 90, Addr: addr.String(), App: histMsg})
+				if end, err := e.N.Connect(w.Ln, "c90", addr); err == nil {
+					lk()
+					byAddr[addr.String()] = end.Peer()
+					ulk()
+					conn := end.Conn()
+					_, _ = conn.Write(histMsg)
+					time.Sleep(50 * time.Millisecond)
+					_ = conn.(interface{ CloseWrite() error }).CloseWrite()
+					buf := make([]byte, 512)
+					for {
+						if _, err := conn.Read(buf); err != nil {
+							break
+						}
+					}
+					_ = conn.Close()
+				}
+			}
 			for i, pl := range plans {
 				addr := worlds.ClientAddr(i + 1)
 				m := &worlds.ConnModel{ID: i + 1, Addr: addr.String(), App: msg}
@@ -376,7 +420,13 @@ func runC06(t *testing.T, e *worlds.Env, tier string) (bool, any) {
 		ca := worlds.ClientAddr(1) // the reference connection has the addresses of the first delivery
 		gen.FakeRemoteIP, gen.FakeRemotePort, gen.FakeLocalIP, gen.FakeLocalPort = ca.IP, ca.Port, net.ParseIP("10.0.0.1"), 443
 		// (only for messages that fit the matching buffer: beyond it the router gives up by design)
-		if ok, err := gen.MatchWhole(pm.Inner, dels[0].model.App, true); ok && err == nil && sample.Len <= layer4.MaxMatchingBytes {
+		okAfter, errAfter := gen.MatchWhole(pm.Inner, dels[0].model.App, true)
+		if refBeforeSet && errAfter == nil && okAfter != refBeforeOK {
+			e.S.Fail("C06/history-dependent", sample.Matcher, "input (%d bytes, first % x): %s answered matched=%v on the complete input before any other connection, and matched=%v on the same bytes after %d other evaluations (history connection: %v)",
+				len(dels[0].model.App), head(dels[0].model.App, 16), sample.Matcher, refBeforeOK, okAfter, len(pm.Evals), histMsg != nil)
+			return
+		}
+		if ok, err := okAfter, errAfter; ok && err == nil && sample.Len <= layer4.MaxMatchingBytes {
 			if whole != "matched" {
 				e.S.Fail("C06/fragment-reject", sample.Matcher, "input (%d bytes, first % x) matches %s when the whole message is buffered, but through the router (delivered in one write) it is %s: a proper prefix was answered with 'no' instead of 'need more'",
 					len(dels[0].model.App), head(dels[0].model.App, 16), sample.Matcher, whole)
@@ -395,13 +445,20 @@ func runC06(t *testing.T, e *worlds.Env, tier string) (bool, any) {
 		// a verdict of 'no' on some prefix remains 'no' on every longer prefix: all
 		// deliveries carry the same input, so evaluations are comparable by prefix length
 		maxNo, minYesAfter := -1, -1
+		histAddr := worlds.ClientAddr(90).String() // the history connection carries another input
+		var evs []PurityEval
 		for _, ev := range pm.Evals {
+			if ev.Conn != histAddr {
+				evs = append(evs, ev)
+			}
+		}
+		for _, ev := range evs {
 			if ev.Verdict == 0 && (maxNo < 0 || ev.Visible < maxNo) {
 				maxNo = ev.Visible // the shortest prefix that was rejected
 			}
 		}
 		if maxNo >= 0 {
-			for _, ev := range pm.Evals {
+			for _, ev := range evs {
 				if ev.Verdict == 1 && ev.Visible > maxNo && (minYesAfter < 0 || ev.Visible < minYesAfter) {
 					minYesAfter = ev.Visible
 				}
